@@ -7,7 +7,7 @@ from vlib import CheckError
 STAT_NAMES = ["not_transport_or_short", "unknown_index", "keypair_expired", "does_not_authenticate",
               "replayed_or_behind_window", "keepalive", "ipv4_length_or_header_refused",
               "ipv6_length_or_header_refused", "other_version_nibble", "source_not_allowed", "written",
-              "handshakes", "age_shifts"]
+              "handshakes", "age_shifts", "unconfirmed_handshakes", "restarts", "accepted_under_offered_key"]
 
 
 def _plain(d):
@@ -120,7 +120,7 @@ class Prop:
         if case.get("kind") == "crashed":
             return
         evs = case["evs"]
-        free = [i for i, e in enumerate(evs) if e["k"] != "hs"]
+        free = [i for i, e in enumerate(evs) if e["k"] not in ("hs", "hsu")]
         # drop runs of non-handshake events (handshakes define the session serials)
         chunk = max(len(free) // 2, 1)
         seen = 0
@@ -167,6 +167,10 @@ class Prop:
         if pos < len(evs):
             for d in evs[pos].get("dgs") or []:
                 notes.add((d.get("note") or ("raw" if d.get("raw") else "dg")).split("/")[-1])
+                if (d.get("note") or "").startswith("pre-restart"):
+                    notes.add("pre-restart")
+        if any(n.startswith("pre-restart") for n in notes) and pos < len(evs) and evs[pos].get("writes"):
+            return "key-from-before-restart-accepted"
         if any("after-idle-across-expiry" in n for n in notes) and pos < len(evs) and evs[pos].get("writes"):
             return "key-older-than-RejectAfterTime-accepted-after-idle"
         return "tun-write-differs-from-permitted:" + ",".join(sorted(notes))[:80]
